@@ -265,6 +265,13 @@ func c15Pieces(thorough bool) []piece {
 				colDep: d == "&", cursor: pc.post > 0})
 		}
 	}
+	// --- ~T at the start of the output (the column contexts are in c15ContextCells)
+	for _, m := range []string{"", "@"} {
+		for _, pc := range []paramClass{{"none", "", nil, 0}, {"colnum0", "0", nil, 0}, {"colnum", "6", nil, 0}, {"colinc-only", ",4", nil, 0},
+			{"colnum,colinc", "2,4", nil, 0}, {"v", "v,v", []fArg{aInt(3), aInt(5)}, 0}} {
+			add(piece{cell: cellKey("t", m, pc.name, "-"), ctrl: "~" + pc.text + m + "t", args: append([]fArg{}, pc.pre...), colDep: true})
+		}
+	}
 	// --- ~P
 	pArgs := []argClass{{"one", []fArg{aInt(1)}}, {"int0", []fArg{aInt(0)}}, {"two", []fArg{aInt(2), aInt(-1)}},
 		{"big+", []fArg{aBig(pow2(70))}}, {"string", []fArg{aStr("1")}}, {"nil", []fArg{aNil()}}, {"symbol", []fArg{aSym("one")}}}
